@@ -200,6 +200,29 @@ fn fault_space(ctx: &mut Ctx, s: &Sample, p: &mut Prng) {
     // C2 and C3 swapped/zeroed
     let (c1b, c2, c3) = r2::split(&s.ct, s.lay.0, s.lay.1).unwrap();
     probe(ctx, s, &assemble(c1b, c2, &[0u8; 32], s.lay.0), "c3_zeroed");
+    // C3 changed so that a folded (XOR / sum) comparison cannot see it
+    for k in 0..6u64 {
+        let mut h = c3.to_vec();
+        let (a, b) = (p.below(32) as usize, p.below(32) as usize);
+        let j = (a + 1 + b % 31) % 32;
+        match k {
+            0 => h.swap(a, j),
+            1 | 2 => {
+                let m = 1u8 << p.below(8);
+                h[a] ^= m;
+                h[j] ^= m;
+            }
+            3 => h.reverse(),
+            4 => h.rotate_left(1 + b % 31),
+            _ => {
+                h[a] = h[a].wrapping_add(1);
+                h[j] = h[j].wrapping_sub(1);
+            }
+        }
+        if h != c3 {
+            probe(ctx, s, &assemble(c1b, c2, &h, s.lay.0), "c3_fold_preserving_change");
+        }
+    }
     let other_order = if s.lay.0 == Order::C1C2C3 { Order::C1C3C2 } else { Order::C1C2C3 };
     if c2.len() != 32 || c2 != c3 {
         probe(ctx, s, &assemble(c1b, c2, c3, other_order), "components_in_other_order");
@@ -299,7 +322,7 @@ pub fn run(ctx: &mut Ctx) {
     for (n, ok) in r2::selftest() {
         ctx.selftest(&n, ok);
     }
-    ctx.require(&["valid_decrypts", "bitflip_pc_byte", "bitflip_c1", "bitflip_c2_c3", "truncated_inside_c1", "truncated_inside_hash", "truncated_body", "pc_byte_illegal", "offcurve_y_plus_1", "invalid_curve_point", "coordinate_x_ge_p_alias", "coordinate_x_eq_p", "coordinate_x_eq_p_alias_of_zero", "compressed_nonresidue_x", "c1_other_point", "c1_negated", "c3_zeroed", "extended", "crafted_valid_c1", "asn1_valid_decrypts", "asn1_component_tamper", "asn1_bitflip", "asn1_sample_c3_leading_zero", "asn1_sample_c3_trailing_zero", "asn1_sample_c2_leading_zero"]);
+    ctx.require(&["valid_decrypts", "bitflip_pc_byte", "bitflip_c1", "bitflip_c2_c3", "truncated_inside_c1", "truncated_inside_hash", "truncated_body", "pc_byte_illegal", "offcurve_y_plus_1", "invalid_curve_point", "coordinate_x_ge_p_alias", "coordinate_x_eq_p", "coordinate_x_eq_p_alias_of_zero", "compressed_nonresidue_x", "c1_other_point", "c1_negated", "c3_zeroed", "c3_fold_preserving_change", "extended", "crafted_valid_c1", "asn1_valid_decrypts", "asn1_component_tamper", "asn1_bitflip", "asn1_sample_c3_leading_zero", "asn1_sample_c3_trailing_zero", "asn1_sample_c2_leading_zero"]);
     let c = r2::curve();
     let nsamples = ctx.n(24, 600);
     let mut prng = ctx.prng("samples");
